@@ -84,12 +84,11 @@ Theorem C15_outgoing_ids : forall uni client ops m outs,
 Proof. exact out_ids. Qed.
 Print Assumptions C15_outgoing_ids.
 
-(** (b) OpenStream fails with StreamLimitReachedError exactly when the limit is reached or when
-    OpenStreamSync callers are waiting (they must not be overtaken). *)
-Theorem C15_open_fails_iff : forall m,
-  snd (fst (o_open m)) = RErr ErrLimitReached <->
-  (o_closed m = None /\ (o_queue m <> [] \/ o_max m < o_next m)) \/ o_closed m = Some ErrLimitReached.
-Proof. exact out_open_fails_iff. Qed.
+(** (b) On an open (not closed) map, OpenStream fails with StreamLimitReachedError exactly when the
+    limit is reached or when OpenStreamSync callers are waiting (they must not be overtaken). *)
+Theorem C15_open_fails_iff : forall m, o_closed m = None ->
+  (snd (fst (o_open m)) = RErr ErrLimitReached <-> o_queue m <> [] \/ o_max m < o_next m).
+Proof. exact out_open_fails_iff_open. Qed.
 Print Assumptions C15_open_fails_iff.
 
 (** (b) FIFO, over all interleavings of calls, wake-ups, cancellations, SetMaxStream, Close: the
@@ -324,37 +323,61 @@ Print Assumptions C15_reset_stream_at_regression.
     In the packet-level model that is replayed against real connections with and without a qlog
     tracer, the first failing frame decides the packet: the verdict (= the connection's close
     error) and the state do not depend on the frames behind it. *)
-Theorem C15_packet_first_error_decides : forall pre g g1 fr0 f o s2 e fr rest rest',
-  handle_packet g pre = (g1, None, fr0) -> gframe_op f = Some o ->
+Theorem C15_packet_first_error_decides : forall tr pre g g1 fr0 f o s2 e fr rest,
+  handle_packet tr g pre = (g1, None, fr0) -> gframe_op f = Some o ->
   tstep (g_sm g1) o = (s2, RErr e, fr) ->
-  handle_packet g (pre ++ f :: rest) =
-    (mkG s2 (g_cancel g1) (g_final g1) (g_done g1) (g_nextA g1), Some e, fr0 ++ fr) /\
-  handle_packet g (pre ++ f :: rest) = handle_packet g (pre ++ f :: rest').
-Proof.
-  intros. split; [eapply handle_packet_first_error; eauto|eapply handle_packet_rest_irrelevant; eauto].
-Qed.
+  (* frames behind the failing one are never handled *)
+  fst (fst (handle_packet tr g (pre ++ f :: rest))) = fst (fst (handle_packet tr g (pre ++ [f]))) /\
+  snd (handle_packet tr g (pre ++ f :: rest)) = snd (handle_packet tr g (pre ++ [f])) /\
+  (* the packet fails (the connection is closed with an error) *)
+  snd (fst (handle_packet tr g (pre ++ f :: rest))) <> None /\
+  (* with the failing frame's error, unless a tracer is attached AND a malformed frame follows *)
+  (tr = false \/ existsb is_malformed rest = false ->
+   snd (fst (handle_packet tr g (pre ++ f :: rest))) = Some e).
+Proof. exact handle_packet_rest. Qed.
 Print Assumptions C15_packet_first_error_decides.
 
+(** the exact verdict, including the tracer-dependent case *)
+Theorem C15_packet_verdict : forall tr pre g g1 fr0 f o s2 e fr rest,
+  handle_packet tr g pre = (g1, None, fr0) -> gframe_op f = Some o ->
+  tstep (g_sm g1) o = (s2, RErr e, fr) ->
+  handle_packet tr g (pre ++ f :: rest) =
+    (mkG s2 (g_cancel g1) (g_final g1) (g_done g1) (g_nextA g1),
+     Some (if tr && existsb is_malformed rest then ErrFrameEncoding else e), fr0 ++ fr).
+Proof. exact handle_packet_first_error. Qed.
+Print Assumptions C15_packet_verdict.
+
 Example C15_packet_example :
-  snd (fst (handle_packet (g_init false 2 2) [GStream 8; GStream 0])) = Some ErrLimit /\
-  snd (fst (handle_packet (g_init false 2 2) [GPing; GStopSending 2; GStream 0; GStream 4])) = Some ErrState /\
-  i_nextOpen (s_ib (g_sm (fst (fst (handle_packet (g_init false 2 2) [GStream 8; GStream 0]))))) = 0.
+  snd (fst (handle_packet true (g_init false 2 2) [GStream 8; GStream 0])) = Some ErrLimit /\
+  snd (fst (handle_packet true (g_init false 2 2) [GPing; GStopSending 2; GStream 0; GStream 4])) = Some ErrState /\
+  i_nextOpen (s_ib (g_sm (fst (fst (handle_packet true (g_init false 2 2) [GStream 8; GStream 0]))))) = 0.
 Proof. vm_compute. repeat split; reflexivity. Qed.
 Print Assumptions C15_packet_example.
 
+(** OBSERVATION (refutes "always answered with STREAM_LIMIT_ERROR" for one corner, replayed on the
+    implementation by the streamsglue table): a stream beyond the limit followed by a malformed frame
+    in the same packet is answered with STREAM_LIMIT_ERROR without a qlog tracer and with
+    FRAME_ENCODING_ERROR with one (C08_tracer_changes_the_error is the same fact at the codec level).
+    The connection is closed in both cases and no stream is opened. *)
+Example C15_tracer_changes_the_error_class :
+  snd (fst (handle_packet false (g_init false 2 2) [GStream 8; GMalformed])) = Some ErrLimit /\
+  snd (fst (handle_packet true (g_init false 2 2) [GStream 8; GMalformed])) = Some ErrFrameEncoding /\
+  i_nextOpen (s_ib (g_sm (fst (fst (handle_packet true (g_init false 2 2) [GStream 8; GMalformed]))))) = 0.
+Proof. vm_compute. repeat split; reflexivity. Qed.
+Print Assumptions C15_tracer_changes_the_error_class.
+
 (** a stream completed through the connection: accepted, abandoned by the application, final size
     told by the peer's FIN - the MAX_STREAMS for the freed slot is queued by the packet that carries
-    the FIN, and the peer may then open one more stream *)
+    the FIN, and the peer may then open one more stream; without the abandon the slot stays taken *)
 Example C15_glue_completion_example :
-  snd (glue_run (g_init false 1 1)
-         [SPacket [GStream 0]; SApp (GAAccept false); SPacket [GStream 4]; SApp (GAAbandon 0);
-          SPacket [GStreamFin 0; GStream 4]]) =
-  [(0, []); (0, []); (ErrLimit, [])] \/
-  snd (glue_run (g_init false 1 1)
+  snd (glue_run false (g_init false 1 1)
+         [SPacket [GStream 0]; SApp (GAAccept false); SPacket [GStreamFin 0; GStream 4]]) =
+  [(0, []); (0, []); (ErrLimit, [])] /\
+  snd (glue_run false (g_init false 1 1)
          [SPacket [GStream 0]; SApp (GAAccept false); SApp (GAAbandon 0);
           SPacket [GStreamFin 0; GStream 4]]) =
   [(0, []); (0, []); (0, []); (0, [FMax false 2])].
-Proof. right. vm_compute. reflexivity. Qed.
+Proof. vm_compute. split; reflexivity. Qed.
 Print Assumptions C15_glue_completion_example.
 
 (** * Round 4 *)
@@ -389,7 +412,7 @@ Print Assumptions C15_reset_blocks_api.
 (** (c) through the connection glue: a client opens streams with restored parameters, 0-RTT is
     rejected, the application abandons an old stream (no effect), moves on, and the IDs start over. *)
 Example C15_glue_0rtt_example :
-  map fst (snd (glue_run (g_init true 2 2)
+  map fst (snd (glue_run false (g_init true 2 2)
     [SApp (GAParams 2 2 false); SApp (GAOpen false); SApp (GAOpen false); SApp GAReject0RTT;
      SApp (GAOpen false); SApp GAOldStream; SApp GAUseReset; SApp (GAOpen false);
      SApp (GAParams 1 1 false); SApp (GAOpen false); SApp (GAOpen false)])) =
@@ -408,3 +431,117 @@ Theorem C15_credit_exact : forall uni client N ops m outs, 0 <= N ->
   in_credit m + zlen (i_streams m) = N.
 Proof. exact in_credit_exact. Qed.
 Print Assumptions C15_credit_exact.
+
+(** * Round 5 (audit) *)
+
+(** (audit 1) Each of the four maps inside a reachable streamsMap is a reachable state of the
+    single-map model: the projection of a streams-map history (any API history, incl. ResetFor0RTT,
+    after which the projected history starts afresh) onto one map is a history of that map. *)
+Theorem C15_streams_map_components_reach : forall client mb mu ops s outs uni,
+  0 <= mb -> 0 <= mu -> Forall top_ok ops ->
+  trun (init_sm client mb mu) ops = (s, outs) ->
+  ireach uni client (if uni then mu else mb) (s_in s uni) /\ oreach uni client (s_out s uni).
+Proof. exact sm_components_reach. Qed.
+Print Assumptions C15_streams_map_components_reach.
+
+(** (audit 1) Exact credit at the newStreamsMap level: every reachable state, both stream types. *)
+Theorem C15_credit_exact_streams_map : forall client mb mu ops s outs (uni : bool),
+  0 <= mb -> 0 <= mu -> Forall top_ok ops ->
+  trun (init_sm client mb mu) ops = (s, outs) ->
+  let N := (if uni then mu else mb) : Z in
+  in_opened (s_in s uni) + N <= SM_MaxStreamCount ->
+  in_credit (s_in s uni) + zlen (i_streams (s_in s uni)) = N.
+Proof. exact sm_credit_exact. Qed.
+Print Assumptions C15_credit_exact_streams_map.
+
+(** (audit 1, 5) The single-map trace theorems at the newStreamsMap level, for the part of the history
+    since the last 0-RTT reset: there is a map history ending in the map's current state for which
+    Accept handed out first, first+4, ... (nextStreamToAccept counts them), the MAX_STREAMS frames are
+    a strictly increasing chain from the configured limit to the limit now enforced, the locally
+    opened IDs are first, first+4, ... each within the peer's limit, and nextStream - the "never
+    opened" threshold of C15_state_errors_recv/_send - is first + 4 * (number of streams opened).
+    (Not restated: the same sequences as functions of the TOP-LEVEL op list.) *)
+Theorem C15_streams_map_component_histories : forall client mb mu ops s outs (uni : bool),
+  0 <= mb -> 0 <= mu -> Forall top_ok ops ->
+  trun (init_sm client mb mu) ops = (s, outs) ->
+  let N := (if uni then mu else mb) : Z in
+  (exists iops iouts, Forall (iop_ok (first_incoming uni client)) iops /\
+     irun (init_in uni client N) iops = (s_in s uni, iouts) /\
+     accepted iops iouts = ids_from (first_incoming uni client) (length (accepted iops iouts)) /\
+     i_nextAccept (s_in s uni) = first_incoming uni client + 4 * zlen (accepted iops iouts) /\
+     chain uni N (frames_of iouts) (in_adv (s_in s uni))) /\
+  (exists oops oouts, Forall (oop_ok (first_outgoing uni client)) oops /\
+     orun (init_out uni client) oops = (s_out s uni, oouts) /\
+     opened oops oouts = ids_from (first_outgoing uni client) (length (opened oops oouts)) /\
+     o_next (s_out s uni) = first_outgoing uni client + 4 * zlen (opened oops oouts) /\
+     Forall (fun id => id <= o_max (s_out s uni)) (opened oops oouts)).
+Proof. exact sm_component_histories. Qed.
+Print Assumptions C15_streams_map_component_histories.
+
+(** (audit 2) STREAMS_BLOCKED: over whole histories the frames queued so far end with the CURRENT
+    limit exactly when blockedSent is set (at most once per limit, never for another value) ... *)
+Theorem C15_blocked_history : forall uni client ops m outs,
+  Forall (oop_ok (first_outgoing uni client)) ops ->
+  orun (init_out uni client) ops = (m, outs) ->
+  exists B, bchain uni (-1) (frames_of outs) B /\
+    (if o_blockedSent m then B = out_limit m else B < out_limit m) /\ 0 <= out_limit m.
+Proof. exact out_blocked_history. Qed.
+Print Assumptions C15_blocked_history.
+
+(** ... and it IS sent: when OpenStream fails at the limit, the frames queued up to and including
+    this call are not empty and the last STREAMS_BLOCKED names the current limit. *)
+Theorem C15_blocked_is_sent : forall uni client ops m1 outs1 m fr,
+  Forall (oop_ok (first_outgoing uni client)) ops ->
+  orun (init_out uni client) ops = (m1, outs1) -> o_closed m1 = None ->
+  o_open m1 = (m, RErr ErrLimitReached, fr) ->
+  bchain uni (-1) (frames_of outs1 ++ fr) (out_limit m) /\ 0 <= out_limit m /\
+  frames_of outs1 ++ fr <> [].
+Proof. exact out_blocked_is_sent. Qed.
+Print Assumptions C15_blocked_is_sent.
+
+(** by the code alone, for OpenStream and for an OpenStreamSync that has to wait: blockedSent is
+    set afterwards and the frame, if one is queued now, names the current limit *)
+Theorem C15_blocked_on_failure : forall m,
+  (forall m' fr, o_closed m = None -> o_open m = (m', RErr ErrLimitReached, fr) ->
+     o_blockedSent m' = true /\ out_limit m' = out_limit m /\
+     ((o_blockedSent m = false /\ fr = [FBlocked (o_uni m) (out_limit m)]) \/ (o_blockedSent m = true /\ fr = []))) /\
+  (forall w m' fr, o_sync_call m w false = (m', RParked, fr) ->
+     o_blockedSent m' = true /\ out_limit m' = out_limit m /\
+     ((o_blockedSent m = false /\ fr = [FBlocked (o_uni m) (out_limit m)]) \/ (o_blockedSent m = true /\ fr = []))).
+Proof. exact (fun m => conj (out_open_fail_blocked m) (out_sync_park_blocked m)). Qed.
+Print Assumptions C15_blocked_on_failure.
+
+(** (audit 4) Real FIFO. (i) What a step does to the queue of waiting callers, exactly: a caller that
+    has to wait joins at the BACK; a served caller is the HEAD; a cancelled caller is removed; Close
+    empties the queue; nothing else moves anybody - the queue is the arrival order of the callers
+    still waiting. *)
+Theorem C15_fifo_queue_discipline : forall uni client m op m' r fr, oreach uni client m ->
+  ostep m op = (m', r, fr) ->
+  match op, r with
+  | OpSyncCall w _, RParked => queue_ids m' = queue_ids m ++ [w]
+  | OpSyncWake w, RId _ => queue_ids m = w :: queue_ids m'
+  | OpSyncCancel w, _ =>
+    queue_ids m' = filter (fun x => negb (w =? x)) (queue_ids m) \/ queue_ids m' = queue_ids m
+  | OpClose _, _ => queue_ids m' = []
+  | _, _ => queue_ids m' = queue_ids m
+  end.
+Proof.
+  intros uni client m op m' r fr R. destruct (oreach_inv _ _ _ R) as ((n & K & B & I) & _ & _).
+  exact (ostep_queue_exact _ _ _ _ _ _ _ _ _ (first_outgoing_range uni client) I).
+Qed.
+Print Assumptions C15_fifo_queue_discipline.
+
+(** (ii) No overtaking: while an earlier arrival [a] still waits, a later one [b] cannot be served
+    (hypothesis: [b] does not also occur before [a], i.e. waiter ids are fresh per call).
+    So if a arrived before b and b was served, a was served before, or left (cancel / Close). *)
+Theorem C15_fifo_no_overtaking : forall uni client m pre a rest b, oreach uni client m ->
+  queue_ids m = pre ++ a :: rest -> In b rest -> ~ In b (pre ++ [a]) ->
+  forall m' id fr, o_sync_wake m b <> (m', RId id, fr).
+Proof. exact out_no_overtaking. Qed.
+Print Assumptions C15_fifo_no_overtaking.
+
+Example C15_fifo_no_overtaking_example :
+  let m0 := fst (orun (init_out false true) [OpSyncCall 1 false; OpSyncCall 2 false; OpSetMax 4]) in
+  queue_ids m0 = [1; 2] /\ snd (fst (o_sync_wake m0 2)) = RNotEnabled /\ snd (fst (o_sync_wake m0 1)) = RId 0.
+Proof. vm_compute. repeat split; reflexivity. Qed.
+Print Assumptions C15_fifo_no_overtaking_example.
